@@ -166,9 +166,9 @@ def model_value(m, v):
     """python value of z3 constant v in model m (None if unassigned)"""
     x = m.eval(v, model_completion=True)
     if z3.is_bool(x):
-        return z3.is_true(x)
+        return z3.is_true(x) if (z3.is_true(x) or z3.is_false(x)) else None
     if z3.is_bv(x):
-        return x.as_long()
+        return x.as_long() if z3.is_bv_value(x) else None
     if z3.is_fp(x):
         bits = m.eval(z3.fpToIEEEBV(x), model_completion=True)
         if z3.is_bv_value(bits):
@@ -212,7 +212,10 @@ def check_smt(text, timeout_s, want_model=True):
         m = s.model()
         for d in m.decls():
             if d.arity() == 0:
-                val = model_value(m, d())
+                try:
+                    val = model_value(m, d())
+                except Exception:
+                    val = None
                 if val is not None:
                     model[d.name()] = val
     return verdict, model, time.time() - t0
